@@ -85,6 +85,29 @@ Section Pin.
       + intros HmQ. apply Hnot. destruct (pin_closed _ _ _ Hp) as [_ Hc]. exact (Hc l Hl m Hm HmQ).
   Qed.
 
+  (* and nothing else is kept: every object of the kept set is a seed or reaches one *)
+  Lemma pin_only_reaching fuel (R : nat -> Prop) :
+    (forall l m, In m (children l) -> R m -> R l) ->
+    forall P Q, pin fuel P = Some Q -> (forall x, In x P -> R x) -> forall x, In x Q -> R x.
+  Proof.
+    intros Hstep. induction fuel as [|k IH]; intros P Q H HP; cbn [pin] in H; [discriminate|].
+    destruct (filter (joins P) nodes) as [|y new] eqn:E.
+    - inversion H; subst Q. exact HP.
+    - apply (IH _ _ H). intros x Hx. apply in_app_or in Hx. destruct Hx as [Hx|Hx]; [apply HP; assumption|].
+      rewrite <- E in Hx. apply filter_In in Hx. destruct Hx as [_ Hj].
+      unfold joins in Hj. apply andb_prop in Hj. destruct Hj as [_ Hj].
+      apply existsb_exists in Hj. destruct Hj as (m & Hm & HmP). apply memb_In in HmP.
+      exact (Hstep x m Hm (HP m HmP)).
+  Qed.
+
+  Theorem pinned_only_what_reaches_a_seed fuel seeds Q :
+    pin fuel seeds = Some Q -> forall l, In l Q -> exists s, In s seeds /\ reaches l s.
+  Proof.
+    intros Hp. apply (pin_only_reaching fuel (fun l => exists s, In s seeds /\ reaches l s)) with (P := seeds); [|assumption|].
+    - intros l m Hm (s & Hs & Hr). exists s. split; [assumption|]. exact (reaches_step l m s Hm Hr).
+    - intros x Hx. exists x. split; [assumption|apply reaches_refl].
+  Qed.
+
   (* the iteration stops: every pass that does not stop adds an object of the heap that was not in the set *)
   Lemma pin_grows P x new : filter (joins P) nodes = x :: new -> In x nodes /\ ~ In x P.
   Proof.
